@@ -246,7 +246,9 @@ def _collect(fi, inline_depth=60, keep=()):
             elif isinstance(s, ast.Return):
                 effects.append(Effect('return', list(ctx), None, inl(s.value, s) if s.value is not None else None, s))
             elif isinstance(s, ast.Raise):
-                effects.append(Effect('raise', list(ctx), None, None, s))
+                # which exception class is raised decides which handler up the stack takes it; the message does not
+                exc = s.exc.func if isinstance(s.exc, ast.Call) else s.exc
+                effects.append(Effect('raise', list(ctx), None, exc if isinstance(exc, (ast.Name, ast.Attribute)) else None, s))
             elif isinstance(s, ast.Assert):
                 effects.append(Effect('assert', list(ctx), None, inl(s.test, s), s))
             elif isinstance(s, (ast.Break, ast.Continue)):
@@ -395,7 +397,8 @@ class HelperInliner:
         if isinstance(f, ast.Attribute) and isinstance(f.value, ast.Name) and f.value.id == 'self' and self.fi.cls:
             cq = '%s:%s' % (self.fi.module.name, self.fi.cls)
             m = self.repo.find_method(cq, f.attr) if cq in self.repo.classes else None
-            return m, True
+            # a static method called through self takes no receiver
+            return m, (m is not None and not any(dotted(d) == 'staticmethod' for d in m.node.decorator_list))
         nm = dotted(f)
         if nm:
             q = self.repo.resolve_dotted(self.fi.module, nm)
